@@ -119,8 +119,8 @@ var jC03 = reg(&Judge{
 		SignalBeh: []string{"", "", "hold", "ignore"}, StartErr: true,
 		BackoffStops: true, HoldOps: []string{sc.OpShutdown}, APIOps: []string{sc.OpStop, sc.OpStart, sc.OpStart}, OrderedPct: 35,
 		// disabled processes started by request are outside the start-up plan but not outside the shutdown
-		Disabled: true,
-		Holds:    []string{"run.enter", "run.afterTerminatingCheck", "run.afterWait", "run.afterBackoff", "runProcess.beforeWait", "runProcess.afterWait", "run.loop", "run.prepare"}},
+		Disabled: true, DaemonPct: 10,
+		Holds: []string{"run.enter", "run.afterTerminatingCheck", "run.afterWait", "run.afterBackoff", "runProcess.beforeWait", "runProcess.afterWait", "run.loop", "run.prepare"}},
 	Oracle: oracle.C03,
 	Classify: func(h *sc.History, x *oracle.Idx) (bool, []string) {
 		var labels []string
